@@ -42,11 +42,13 @@ fuzz_target!(|data: &[u8]| {
         }
     }
     let total = c.lo.len() + c.st.len();
-    feature(&[c.kind.starts_with("fixed") as u64, ok as u64, out.len().min(24) as u64, total.min(48) as u64, (c.api == "buf") as u64]);
+    let ob = match out.len() { 0 => 0u64, 1 => 1, 2..=7 => 2, 8..=23 => 3, _ => 4 };
+    let tb = match total { 0 => 0u64, 1..=3 => 1, 4..=7 => 2, 8..=15 => 3, 16..=31 => 4, 32..=63 => 5, 64..=127 => 6, _ => 7 };
+    feature(&[c.kind.starts_with("fixed") as u64, ok as u64, ob, tb, (c.api == "buf") as u64]);
     // number of line ends and semicolons in the encoding against the outcome (extensions, trailers, chunk counts)
     let all: Vec<u8> = c.lo.iter().chain(c.st.iter()).copied().collect();
     let nl = all.iter().filter(|b| **b == b'\n').count().min(8) as u64;
     let sc = all.iter().filter(|b| **b == b';').count().min(3) as u64;
     let first_digits = all.iter().take_while(|b| b.is_ascii_hexdigit()).count().min(20) as u64;
-    feature(&[7, ok as u64, nl, sc, first_digits, out.len().min(6) as u64]);
+    feature(&[7, ok as u64, nl.min(5), sc.min(2), first_digits.min(18)]);
 });
